@@ -16,10 +16,12 @@ import (
 
 // C15 — parent and child (extension) stores stay consistent.
 
-func c15Cfg(extended, uniqueExtra, second bool) kit.WorldCfg {
+func c15Cfg(extended, uniqueExtra, second, clash bool) kit.WorldCfg {
 	cfg := kit.WorldCfg{
-		Stores:   []kit.StoreCfg{{Name: "emps", UniqueName: true, RolesIndex: true}},
-		Children: []kit.ChildCfg{{Name: "mgrs", Parent: "emps", Extended: extended, UniqueExtra: uniqueExtra}},
+		Stores:   []kit.StoreCfg{{Name: "emps", UniqueName: true, RolesIndex: true, Keyed: clash}, {Name: "teams"}},
+		// a relation the child store owns: managers lead teams
+		Links: []kit.LinkCfg{{A: "mgrs", FieldA: "leads", B: "teams", FieldB: "leaders"}},
+		Children: []kit.ChildCfg{{Name: "mgrs", Parent: "emps", Extended: extended, UniqueExtra: uniqueExtra, Clash: clash}},
 	}
 	if second {
 		// a second child type over the same parent; an entity belongs to at most one of the two. The index of its
@@ -45,7 +47,9 @@ var c15Universe = kit.EntUniverse{
 func genC15(t *rapid.T) kit.History {
 	// half of the child stores have an index of their own (nullable unique index over the child-only field)
 	second := rapid.IntRange(0, 2).Draw(t, "secondChild") == 0
-	cfg := c15Cfg(rapid.IntRange(0, 2).Draw(t, "extended") == 0, rapid.Bool().Draw(t, "uniqueExtra"), second)
+	// a third of the cases: the parent's fields live under other bucket keys than their names, the child keeps its own
+	// field under the key the parent uses for its note, and both levels declare field overrides
+	cfg := c15Cfg(rapid.IntRange(0, 2).Draw(t, "extended") == 0, rapid.Bool().Draw(t, "uniqueExtra"), second, rapid.IntRange(0, 2).Draw(t, "clash") == 0)
 	return kit.GenHistory(t, cfg, 20, 3, true, 60, func(t *rapid.T, l string, m *kit.Model) kit.Op {
 		store := "emps"
 		if rapid.Bool().Draw(t, l+"_viaChild") {
@@ -53,6 +57,20 @@ func genC15(t *rapid.T) kit.History {
 			if second && rapid.IntRange(0, 2).Draw(t, l+"_viaSecond") == 0 {
 				store = "ctrs"
 			}
+		}
+		if x := rapid.IntRange(0, 9).Draw(t, l+"_teams"); x == 0 {
+			return kit.Op{Kind: []string{"create", "create", "delete"}[rapid.IntRange(0, 2).Draw(t, l+"_tk")], Store: "teams", ID: []string{"t1", "t2"}[rapid.IntRange(0, 1).Draw(t, l+"_tid")], Spec: &kit.EntSpec{Name: "team"}}
+		} else if x == 1 {
+			// link operations on the child store's collection, from either side
+			op := kit.Op{Kind: []string{"addlinks", "addlinks", "removelinks", "setlinks"}[rapid.IntRange(0, 3).Draw(t, l+"_lk")]}
+			mgr := c15Universe.IDs[rapid.IntRange(0, len(c15Universe.IDs)-1).Draw(t, l+"_lmgr")]
+			team := []string{"t1", "t2"}[rapid.IntRange(0, 1).Draw(t, l+"_lteam")]
+			if rapid.Bool().Draw(t, l+"_lside") {
+				op.Store, op.Field, op.ID, op.Keys = "mgrs", "leads", mgr, []string{team}
+			} else {
+				op.Store, op.Field, op.ID, op.Keys = "teams", "leaders", team, []string{mgr}
+			}
+			return op
 		}
 		if rapid.IntRange(0, 11).Draw(t, l+"_deleteWhere") == 0 {
 			return kit.Op{Kind: "deletewhere", Store: store, Spec: &kit.EntSpec{Name: c15Universe.Names[rapid.IntRange(0, len(c15Universe.Names)-2).Draw(t, l+"_dwName")]}}
@@ -133,7 +151,7 @@ func runC15(h kit.History) kit.Result {
 		}
 		// after a committed delete through either store the id occurs nowhere
 		for _, op := range tx.Ops {
-			if op.Kind != "delete" {
+			if op.Kind != "delete" || op.Store == "teams" {
 				continue
 			}
 			if _, still := m.Ents["emps"][op.ID]; still {
